@@ -173,6 +173,7 @@ class Monitor:
         self.cr_anomalies = 0
         self.frames_total = 0
         self.pn_response_larger = 0
+        self.frames_over_pn_response_n1 = 0  # counted, not a verdict (see c20.py ASSUMPTIONS)
 
     # -- helpers -----------------------------------------------------------
     def _v(self, kind, detail, msg):
@@ -237,8 +238,6 @@ class Monitor:
     # -- DLCI 0 ---------------------------------------------------------------
     def _tx_control(self, end, f: Frame):
         if f.type == SABM:
-            if end != 0 and self.mux == 'idle':
-                pass
             self.mux = 'sabm'
         elif f.type == UA:
             if self.mux == 'sabm':
@@ -280,8 +279,6 @@ class Monitor:
             peer = 1 - end
             if peer in d.pn and pn['n1'] > d.pn[peer]['n1']:
                 self.pn_response_larger += 1
-        if not 1 <= pn['k'] <= 7 and pn['cl'] in (0xF, 0xE):
-            pass
         # credits granted by `end` to its peer
         d.credits[1 - end] = d.credits.get(1 - end, 0) + pn['k']
 
@@ -316,6 +313,9 @@ class Monitor:
                 d.credit_frames[end] += 1
                 if n == 0:
                     d.empty_credit_frames[end] += 1
+            if 1 in d.pn and n + (1 if f.credits is not None else 0) > d.pn[1]['n1']:
+                # strict RFCOMM reading: the N1 of the PN *response* is the negotiated size for both directions
+                self.frames_over_pn_response_n1 += 1
             if peer in d.pn:
                 n1 = d.pn[peer]['n1']
                 if n > n1:
@@ -365,15 +365,6 @@ def at_command_lines(stream: bytes):
     """Commands HF -> AG: terminated by <CR>."""
     parts = bytes(stream).split(b'\r')
     return [p.decode('utf-8', 'replace') for p in parts[:-1]], bytes(parts[-1])
-
-
-def at_result_lines(stream: bytes):
-    """Result codes AG -> HF: <CR><LF>text<CR><LF>.  Returns the texts."""
-    out = []
-    for chunk in bytes(stream).split(b'\r\n'):
-        if chunk:
-            out.append(chunk.decode('utf-8', 'replace'))
-    return out
 
 
 def is_final(line: str) -> bool:
